@@ -194,6 +194,16 @@ def unusual_context_oracle(ck, report):
         "repr-raises": ([{"processor": "FloatValueDataSource", "parameters": {"value": 2.0}}, {"processor": C.VerifUnhashableReprContextProcessor},
                          {"processor": "FloatMultiplyOperation", "parameters": {"factor": 3.0}}], {}),
     }
+    for kind in C.VALUE_KINDS:
+        scen["value-under-own-key:" + kind] = ([{"processor": "FloatValueDataSource", "parameters": {"value": 2.0}}, {"processor": C.make_value_writer(kind)},
+                                                 {"processor": "FloatMultiplyOperation", "parameters": {"factor": 3.0}}], {})
+        scen["value-as-parameter:" + kind] = ([{"processor": "FloatValueDataSource", "parameters": {"value": 2.0}}, {"processor": C.make_value_writer(kind, "note")},
+                                                {"processor": C.VerifNoteOperation}, {"processor": "FloatMultiplyOperation", "parameters": {"factor": 3.0}}], {})
+        scen["value-in-initial-context:" + kind] = ([{"processor": "FloatValueDataSource", "parameters": {"value": 2.0}}, {"processor": C.VerifNoteOperation}],
+                                                     {"note": C.unusual_value(kind), "zz": C.unusual_value(kind)})
+    for exc in ("KeyError", "VerifMissingField", "ValueError", "IndexError", "StopIteration", "OSError"):
+        scen["exception-without-arguments:" + exc] = ([{"processor": "FloatValueDataSource", "parameters": {"value": 2.0}}, {"processor": C.make_raising_noargs(exc)},
+                                                       {"processor": "FloatMultiplyOperation", "parameters": {"factor": 3.0}}], {})
     n = 0
     for name, (cfg, ctx0) in scen.items():
         plain = _outcome(lambda: Pipeline([dict(c) for c in cfg]).process(Payload(None, ContextType(dict(ctx0)))))
